@@ -139,14 +139,25 @@ def worker(case: Dict[str, Any]) -> CaseResult:
         from graphql import build_schema as _bs
         qname = schema_ref.query_type.name
         args_ = ", ".join("a%d: %s!" % (k, n) for k, n in enumerate(scalars))
-        sdl_new = _re.sub(r"(type %s[^{]*\{\n)" % _re.escape(qname), lambda m_: m_.group(1) + "  vfTakeScalars(%s): [%s]\n" % (args_, scalars[0]), sdl, count=1)
+        # ... and an input object holding every scalar (plain and in a list), taken by a query field and - where the schema has subscriptions and the
+        # client is asynchronous - by a subscription field: nested occurrences on the HTTP and on the websocket route
+        in_def = "input VfScalarIn {\n%s}\n" % "".join("  s%d: %s!\n  l%d: [%s!]\n" % (k, n, k, n) for k, n in enumerate(scalars))
+        sdl_new = _re.sub(r"(type %s[^{]*\{\n)" % _re.escape(qname), lambda m_: m_.group(1) + "  vfTakeScalars(%s): [%s]\n  vfTakeInput(inp: VfScalarIn!): Int\n" % (args_, scalars[0]), sdl, count=1)
+        sub_t = schema_ref.subscription_type
+        with_sub = sub_t is not None and case["cfg"].get("async_client", True)
+        if with_sub:
+            sdl_new = _re.sub(r"(type %s[^{]*\{\n)" % _re.escape(sub_t.name), lambda m_: m_.group(1) + "  vfWatchInput(inp: VfScalarIn!): Int\n", sdl_new, count=1)
         if sdl_new != sdl:
             try:
-                schema_ref = _bs(sdl_new)
-                sdl = sdl_new
+                schema_ref = _bs(sdl_new + "\n" + in_def)
+                sdl = sdl_new + "\n" + in_def
                 ops = list(ops) + ["query VfTakeScalars(%s) { vfTakeScalars(%s) }" % (", ".join("$a%d: %s!" % (k, n) for k, n in enumerate(scalars)),
-                                                                                          ", ".join("a%d: $a%d" % (k, k) for k in range(len(scalars))))]
-                names = list(names) + ["VfTakeScalars"]
+                                                                                          ", ".join("a%d: $a%d" % (k, k) for k in range(len(scalars)))),
+                                   "query VfTakeInput($inp: VfScalarIn!) { vfTakeInput(inp: $inp) }"]
+                names = list(names) + ["VfTakeScalars", "VfTakeInput"]
+                if with_sub:
+                    ops.append("subscription VfWatchInput($inp: VfScalarIn!) { vfWatchInput(inp: $inp) }")
+                    names.append("VfWatchInput")
                 feats.add("scalar.all_as_variables_probe")
             except Exception:  # noqa: BLE001
                 pass
